@@ -9,7 +9,7 @@ from pwv.core import Result, lib
 
 ID = 'C13'
 RULE = ('Hypothesis draws (wavelet by family, J in 1..4, H,W = generated multiples of 2^J in 2..64 incl. '
-        'images smaller than the dilated filter, N, C, mode spelling in {default, periodization, periodic}, '
+        'images smaller than the dilated filter, about one case in 160 a batch of 2-4 million samples (up to 1024x1024), N, C, mode spelling in {default, periodization, periodic}, '
         'dtype, content recipe, circular shift). Oracles: pywt.swt2 (operator on basis inputs for images '
         '<= 256 pixels, dense inputs always), output structure (J tensors (N,C,4,H,W), finest first, '
         'A,H,V,D), and the metamorphic relation T(roll x) = roll T(x). Non-trivial = L>=4 or J>=2. '
@@ -28,6 +28,9 @@ def plan(tier):
     return units
 
 
+HUGE = [(4, 4, 512, 512), (16, 2, 256, 512), (1, 3, 1024, 1024), (2, 3, 512, 1024), (8, 8, 256, 256), (3, 1, 1024, 768)]
+
+
 @st.composite
 def _case(draw, unit):
     w = unit.get('wave') or draw(dwtu.wavelet_strategy())
@@ -38,8 +41,14 @@ def _case(draw, unit):
     def dimn():
         return P * draw(st.integers(1, max(1, cap // P)))
     H, W = dimn(), dimn()
-    return {'wave': w, 'J': J, 'size': [H, W], 'N': draw(st.sampled_from([1, 2])),
-            'C': draw(st.sampled_from([1, 2, 3])),
+    N, C = draw(st.sampled_from([1, 2])), draw(st.sampled_from([1, 2, 3]))
+    if 'wave' not in unit and draw(st.integers(0, 159)) == 0:
+        # occasionally a batch of several million samples (where an implementation may start to work in chunks)
+        w = draw(dwtu.wavelet_strategy(max_len=8))
+        J = min(J, 2)
+        N, C, H, W = draw(st.sampled_from(HUGE))
+    return {'wave': w, 'J': J, 'size': [H, W], 'N': N,
+            'C': C,
             'mode': draw(st.sampled_from(['default', 'periodization', 'periodic'])),
             'dtype': draw(st.sampled_from(['f64', 'f64', 'f64', 'f32'])),
             'shift': [draw(st.integers(-70, 70)), draw(st.integers(-70, 70))],
@@ -78,6 +87,7 @@ def run_case(case):
             'smaller_than_dilated_filter' if min(H, W) < L * 2 ** (J - 1) else None,
             'nonsquare' if H != W else None, 'L>=20' if L >= 20 else None)
     r.nontrivial = L >= 4 or J >= 2
+    r.label('millions_of_samples' if case['N'] * case['C'] * H * W >= 2 ** 21 else None)
     def make(wname):
         if wname == w:
             wname = wave_arg(case)
@@ -167,5 +177,5 @@ LEVEL_TEXT = ('Generated-input search over all wavelets, level counts, admissibl
               'dilated filter), mode spellings and dtypes: SWTForward is compared as a whole operator and on '
               'dense inputs with pywt.swt2, its output structure is checked, and circular-shift equivariance is '
               'checked independently of PyWavelets.')
-LEVEL_NOTE = 'Sampled sizes <= 64x64 (full operators <= 256 pixels); trusts pywt.swt2; relies on the fix: commit for SWTForward.'
+LEVEL_NOTE = 'Sampled sizes <= 64x64 (full operators <= 256 pixels) plus occasional batches of 2-4 million samples; trusts pywt.swt2; relies on the fix: commit for SWTForward.'
 TECHNIQUE = 'property-based testing (Hypothesis), differential oracle pywt.swt2 + metamorphic shift relation'
